@@ -1,6 +1,7 @@
-(* C04_Proofs.v — the unscented Kalman steps at the MathComp instance. *)
+(* C04_Proofs.v — the unscented Kalman steps at the MathComp instance: on linear
+   models they are the Kalman steps (corollaries of C03's affine exactness). *)
 Require Import ZArith List Bool Lia.
-Require Import BFL.Ops BFL.Density BFL.C01_Model BFL.C03_Model BFL.C04_Model.
+Require Import BFL.Ops BFL.Density BFL.C01_Model BFL.C02_Model BFL.C03_Model BFL.C04_Model.
 From mathcomp Require Import all_ssreflect all_algebra.
 Require Import BFL.MxOps BFL.LinAlg BFL.C03_Proofs.
 Set Implicit Arguments.
@@ -9,9 +10,338 @@ Unset Printing Implicit Defensive.
 Import Order.Theory GRing.Theory Num.Theory.
 Local Open Scope ring_scope.
 
+(* a layout without circular components and without noise rows, n linear rows *)
+Definition plain_layout (L : layout) (n : nat) : Prop :=
+  [/\ l_lin L = n, l_circ L = 0%N & l_noise L = 0%N].
+
 Section Generic.
 Variable O : MatOps.
+(* skip flags: the previous belief is handed back, whatever the model *)
 Lemma ukf_predict_additive_skip n (L : layout) a b k sp ss f (Q : M O n n) q prev :
   sp || ss -> ukf_predict_additive L a b k sp ss f Q q prev = prev.
 Proof. by rewrite /ukf_predict_additive => ->. Qed.
+
+Lemma ukf_predict_generic_skip n q (Ld L : layout) a b k sp ss f (Q : M O q q) (prev : mixture O n n) :
+  sp || ss -> ukf_predict_generic Ld L a b k sp ss f Q prev = prev.
+Proof. by rewrite /ukf_predict_generic => ->. Qed.
+
+(* a skipped correction (GaussianCorrection::skip_) hands back the predicted belief and
+   touches nothing; a correction that finds no measurement hands back the predicted
+   belief and reports no likelihood afterwards *)
+Lemma ukf_correct_additive_idle n m (Ld Lm : layout) a b k (skip : bool) (y : option (M O m 1)) f g (R : M O m m)
+      (pred old : mixture O n n) st :
+  (skip -> ukf_correct_additive Ld Lm a b k skip y f g R pred old st = (pred, st, [::])) /\
+  (~~ skip -> y = None ->
+   ukf_correct_additive Ld Lm a b k skip y f g R pred old st = (pred, mkUkfState [::] (us_Pyy st), [::])).
+Proof. by rewrite /ukf_correct_additive; split=> [->|/negbTE ->] // ->. Qed.
+
+Lemma ukf_correct_generic_idle n q m (Ld Lm : layout) a b k (skip : bool) (y : option (M O m 1)) f g (R : M O q q)
+      (pred old : mixture O n n) st :
+  (skip -> ukf_correct_generic Ld Lm a b k skip y f g R pred old st = (pred, st, [::])) /\
+  (~~ skip -> y = None ->
+   ukf_correct_generic Ld Lm a b k skip y f g R pred old st = (pred, mkUkfState [::] (us_Pyy st), [::])).
+Proof. by rewrite /ukf_correct_generic; split=> [->|/negbTE ->] // ->. Qed.
+
+Lemma ukf_idle_identity n q m (Ld Lm : layout) a b k (skip : bool) (y : option (M O m 1))
+      f f' g (R : M O m m) (Rv : M O q q) (pred old : mixture O n n) st :
+  let ra := ukf_correct_additive Ld Lm a b k skip y f g R pred old st in
+  let rg := ukf_correct_generic Ld Lm a b k skip y f' g Rv pred old st in
+  (skip -> ra = (pred, st, [::]) /\ rg = (pred, st, [::])) /\
+  (~~ skip -> y = None ->
+   [/\ ra.1.1 = pred, rg.1.1 = pred, ukf_likelihood ra.1.2 = None & ukf_likelihood rg.1.2 = None]).
+Proof.
+move=> ra rg; split=> [Hs|Hs Hy].
+  by split; [case: (ukf_correct_additive_idle Ld Lm a b k skip y f g R pred old st) => /(_ Hs)
+            | case: (ukf_correct_generic_idle Ld Lm a b k skip y f' g Rv pred old st) => /(_ Hs)].
+case: (ukf_correct_additive_idle Ld Lm a b k skip y f g R pred old st) => _ /(_ Hs Hy) Ea.
+case: (ukf_correct_generic_idle Ld Lm a b k skip y f' g Rv pred old st) => _ /(_ Hs Hy) Eg.
+by rewrite /ra /rg Ea Eg.
+Qed.
+
+(* a failed predicted measurement or a failed innovation leaves the belief untouched
+   and no likelihood is reported afterwards *)
+Lemma ukf_correct_finish_unusable n m ms (y : M O m 1) g (ut : option (ut_result O m m n))
+      (pred old : mixture O n n) st :
+  (ut = None \/ exists r, ut = Some r /\ g (List.map (fun u => uc_mean u) (ur_comps r)) y = None) ->
+  let res := ukf_correct_finish ms y g ut pred old st in
+  [/\ res.1.1 = pred, res.2 = [::] & ukf_likelihood res.1.2 = None].
+Proof. by case=> [->|[r [-> E]]] //=; rewrite /ukf_correct_finish E. Qed.
+
+Lemma ukf_skip_identity n q (L Ld : layout) a b k sp ss f g (Q : M O n n) (Qw : M O q q) qn
+      (prev : mixture O n n) :
+  sp || ss ->
+  ukf_predict_additive L a b k sp ss f Q qn prev = prev /\
+  ukf_predict_generic Ld L a b k sp ss g Qw prev = prev.
+Proof. by move=> Hs; split; [exact: ukf_predict_additive_skip | exact: ukf_predict_generic_skip]. Qed.
 End Generic.
+
+Section UKFMx.
+Variable F : realFieldType.
+Variable tr : Transc F.
+Variable sq : forall n, 'M[F]_n -> 'M[F]_n.
+Variable eg : forall n, 'M[F]_n -> 'M[F]_(n,1).
+Let O := MxMat tr sq eg.
+
+Hypothesis sqrt_contract : forall x : F, 0 <= x -> t_sqrt tr x * t_sqrt tr x = x.
+Hypothesis sq_contract : forall n (P : 'M[F]_n), psd P -> sq P *m (sq P)^T = P.
+
+Lemma linear_cols_affine d p (A : 'M[F]_(p,d)) X :
+  linear_cols (O:=O) A X = affine_cols (O:=O) A 0 X.
+Proof. by apply: map_ext => x /=; rewrite addr0. Qed.
+
+Lemma sel_id n : sel F n n = 1%:M.
+Proof. by apply/matrixP=> i j; rewrite !mxE. Qed.
+
+Lemma plain_linear L n : plain_layout L n -> linear_layout L n.
+Proof. by case=> H1 H2 H3; split=> //; rewrite H1 H3; lia. Qed.
+
+Lemma plain_noiseless L n : l_lin L = n -> l_circ L = 0%N -> plain_layout (l_noiseless L) n.
+Proof. by move=> H1 H2; split. Qed.
+
+Lemma add_noise_linear L n q : plain_layout L n -> linear_layout (l_add_noise L q) (n + q).
+Proof. by case=> H1 H2 H3; split=> //=; rewrite H1 H3 -plusE; lia. Qed.
+
+Lemma dcov_plain L n : plain_layout L n -> l_dcov L = n.
+Proof. by case=> H1 H2 H3; rewrite /l_dcov /l_dx H1 H2 H3; lia. Qed.
+
+(* the spec-side Kalman prediction of one component is C02's *)
+Lemma kf_predict_comp_C02 n (Ft Q : 'M[F]_n) (xP : 'cV[F]_n * 'M[F]_n) :
+  kf_predict_comp (O:=O) Ft Q xP = (Ft *m xP.1, kf_predict_cov (O:=O) Ft Q xP.2).
+Proof. by []. Qed.
+
+(* ---------------- prediction ---------------- *)
+Section Predict.
+Variables (n : nat) (alpha beta kappa : F).
+Variable prev : mixture O n n.
+Hypothesis prev_plain : plain_layout (mx_layout prev) n.
+Hypothesis prev_psd : forall mc, In mc (mx_comps prev) -> psd mc.2.
+Variable Lstate : layout.
+Hypothesis Lstate_lin : l_lin Lstate = n.
+Hypothesis Lstate_circ : l_circ Lstate = 0%N.
+Let k := length (mx_comps prev).
+
+Lemma ukf_predict_additive_linear (Ft Q : 'M[F]_n) q :
+  0 < w_c (ut_weights (O:=O) n alpha beta kappa) ->
+  ukf_predict_additive (O:=O) Lstate alpha beta kappa false false (linear_cols (O:=O) Ft) Q q prev =
+  mkMix (O:=O) (l_noiseless Lstate) (List.map (kf_predict_comp (O:=O) Ft Q) (mx_comps prev))
+        (repeat (1 / k%:R) k).
+Proof.
+move=> cp; rewrite /ukf_predict_additive /= /ut_weights_of.
+have -> : l_dcov (l_noiseless (additive_input_description Lstate q)) = n.
+  by rewrite /l_dcov /l_dx /= Lstate_lin Lstate_circ; lia.
+rewrite /ut_additive_state /ut_state linear_cols_affine.
+rewrite (ut_core_affine (plain_linear prev_plain) _ _ cp sqrt_contract sq_contract _ _ prev_psd) //.
+  rewrite add_noise_affine /mix_of_result /= map_map; congr mkMix.
+  by apply: map_ext => mc; rewrite /kf_predict_comp /= addr0.
+by case: prev_plain.
+Qed.
+
+Lemma ukf_predict_generic_linear q (Ldesc : layout) (Ft : 'M[F]_n) (B : 'M[F]_(n,q)) (Qw : 'M[F]_q) :
+  l_dcov Ldesc = (n + q)%N -> psd Qw ->
+  0 < w_c (ut_weights (O:=O) (n + q) alpha beta kappa) ->
+  ukf_predict_generic (O:=O) Ldesc Lstate alpha beta kappa false false
+                      (linear_cols (O:=O) (row_mx Ft B)) Qw prev =
+  mkMix (O:=O) (l_noiseless Lstate)
+        (List.map (kf_predict_comp (O:=O) Ft (B *m Qw *m B^T)) (mx_comps prev))
+        (repeat (1 / k%:R) k).
+Proof.
+move=> Hd pQ cp; rewrite /ukf_predict_generic /= /ut_weights_of Hd.
+rewrite /ut_state linear_cols_affine.
+have Hl := add_noise_linear q prev_plain.
+have Hx : l_lin (l_add_noise (mx_layout prev) q) = n by case: prev_plain.
+have := @ut_state_affine_augmented F tr sq eg _ (l_noiseless Lstate) n q n Hl Hx Lstate_lin
+          alpha beta kappa cp sqrt_contract sq_contract Ft B 0 Qw pQ (mx_comps prev) prev_psd.
+rewrite /ut_state => ->.
+rewrite /mix_of_result /= map_map; congr mkMix.
+by apply: map_ext => mc; rewrite /kf_predict_comp /= !addr0.
+Qed.
+End Predict.
+
+(* ---------------- correction ---------------- *)
+(* the slice Pxy.middleCols(m * i, m) of the stored cross-covariance is component i *)
+Lemma cross_slice n m (cs : list 'M[F]_(n,m)) (i : nat) : (i < length cs)%coq_nat ->
+  mslice (O:=O) 0 (Nat.mul m i) n m (cross_storage (O:=O) cs) = List.nth i cs 0.
+Proof.
+move=> Hi; apply/matrixP=> r c; rewrite /mslice /cross_storage /= mxE.
+have Hm : (0 < m)%coq_nat by case: c => c' /= /ssrnat.ltP; lia.
+have Hc : (c < m)%coq_nat by apply/ssrnat.ltP.
+rewrite mx_get_build /=; last 2 first.
+- by [].
+- apply/ssrnat.ltP.
+  have : lt (Nat.add (Nat.mul m i) c) (Nat.mul m (Datatypes.S i)) by rewrite Nat.mul_succ_r; lia.
+  move=> H1; apply: (Nat.lt_le_trans _ _ _ H1); apply: Nat.mul_le_mono_l; lia.
+have -> : Nat.div (Nat.add (Nat.mul m i) c) m = i.
+  by rewrite Nat.mul_comm Nat.div_add_l ?Nat.div_small //; lia.
+have -> : Nat.modulo (Nat.add (Nat.mul m i) c) m = c.
+  by rewrite Nat.add_comm Nat.mul_comm Nat.mod_add ?Nat.mod_small //; lia.
+exact: mx_get_ord.
+Qed.
+
+Lemma combine_self_map A B (g : A -> B) (l : list A) :
+  combine l (List.map g l) = List.map (fun x => (x, g x)) l.
+Proof. by elim: l => [|x l IH] //=; rewrite IH. Qed.
+
+Lemma map_indexed3 A B C D (h : nat -> A -> B -> C -> D) (f : A -> B) (g : B -> C) (l : list A) a :
+  List.map (fun q : nat * (A * (B * C)) => h q.1 q.2.1 q.2.2.1 q.2.2.2)
+           (combine (List.seq a (length l)) (combine l (combine (List.map f l) (List.map g (List.map f l))))) =
+  List.map (fun iq : nat * A => h iq.1 iq.2 (f iq.2) (g (f iq.2))) (combine (List.seq a (length l)) l).
+Proof. by elim: l a => [|x l IH] a //=; rewrite IH. Qed.
+
+Section Correct.
+Variables (n m : nat) (H : 'M[F]_(m,n)) (Reff : 'M[F]_m) (y : 'cV[F]_m).
+Variables (pred old : mixture O n n) (st : ukf_state O m).
+Let comps := mx_comps pred.
+
+(* what the transform through a linear measurement model returns, per component *)
+Definition meas_image (xP : 'cV[F]_n * 'M[F]_n) : ut_comp O m m n :=
+  mkUtComp (O:=O) (H *m xP.1 : 'cV[F]_m) (H *m xP.2 *m H^T + Reff) (xP.2 *m H^T).
+
+Let kf_outs := kf_correct (O:=O) H Reff y (List.map (fun xP => mkGcomp (O:=O) xP.1 xP.2) comps).
+
+Lemma ukf_correct_comp_kf (cs : list 'M[F]_(n,m)) i (xP : 'cV[F]_n * 'M[F]_n) :
+  (i < length cs)%coq_nat -> List.nth i cs 0 = xP.2 *m H^T ->
+  ukf_correct_comp (O:=O) (cross_storage (O:=O) cs) m i xP (H *m xP.2 *m H^T + Reff)
+                   (lin_innovation (O:=O) (H *m xP.1 : 'cV[F]_m) y) =
+  kf_correct_one (O:=O) H Reff y (mkGcomp (O:=O) xP.1 xP.2).
+Proof.
+move=> Hi Hn; rewrite /ukf_correct_comp /ukf_gain (cross_slice Hi) Hn.
+by rewrite /kf_correct_one /kf_correct_comp /lin_predicted /=.
+Qed.
+
+Lemma ukf_correct_loop_kf ws :
+  ukf_correct_loop (O:=O) m comps (mkUtResult (O:=O) (List.map meas_image comps) ws)
+                   (List.map (fun yp : 'cV[F]_m => lin_innovation (O:=O) yp y)
+                             (List.map (fun u : ut_comp O m m n => uc_mean u) (List.map meas_image comps))) = kf_outs.
+Proof.
+rewrite (map_map (fun u : ut_comp O m m n => uc_mean u) (fun yp : 'cV[F]_m => lin_innovation (O:=O) yp y)).
+rewrite /ukf_correct_loop /kf_outs /kf_correct ![ur_comps _]/=.
+set cs := List.map (fun u => uc_cross u) _.
+etransitivity.
+  exact: (@map_indexed3 _ _ _ _
+            (fun i xP (u : ut_comp O m m n) (nu : 'cV[F]_m) =>
+               ukf_correct_comp (O:=O) (cross_storage (O:=O) cs) m i xP (uc_cov u) nu)
+            meas_image (fun u : ut_comp O m m n => lin_innovation (O:=O) (uc_mean u) y) comps 0).
+rewrite [RHS]map_map.
+pose h (i : nat) (xP : 'cV[F]_n * 'M[F]_n) : kf_out O n m :=
+  ukf_correct_comp (O:=O) (cross_storage (O:=O) cs) m i xP (H *m xP.2 *m H^T + Reff)
+                   (lin_innovation (O:=O) (H *m xP.1 : 'cV[F]_m) y).
+apply: (@map_indexed _ _ h (fun xP => kf_correct_one (O:=O) H Reff y (mkGcomp (O:=O) xP.1 xP.2)) comps (0, 0)).
+move=> i Hi; rewrite /h; apply: ukf_correct_comp_kf; first by rewrite /cs !map_length.
+rewrite /cs map_map.
+rewrite (nth_indep _ _ ((fun xP : 'cV[F]_n * 'M[F]_n => xP.2 *m H^T) (0, 0))) ?map_length //.
+by rewrite (map_nth (fun xP : 'cV[F]_n * 'M[F]_n => xP.2 *m H^T)).
+Qed.
+
+Lemma ukf_correct_finish_kf ws :
+  ukf_correct_finish (O:=O) m y (lin_innovation_cols (O:=O))
+                     (Some (mkUtResult (O:=O) (List.map meas_image comps) ws)) pred old st =
+  (mkMix (O:=O) (mx_layout old)
+         (overwrite_prefix (List.map (fun o => (gmean (ko_comp o), gcov (ko_comp o))) kf_outs) (mx_comps old))
+         (mx_weights old),
+   mkUkfState (O:=O) (List.map (fun o => ko_innov o) kf_outs) (List.map (fun o => ko_Py o) kf_outs),
+   kf_outs).
+Proof.
+rewrite /ukf_correct_finish /lin_innovation_cols ![ur_comps _]/=.
+rewrite ukf_correct_loop_kf.
+congr (_, _, _); congr mkUkfState; rewrite /kf_outs /kf_correct !map_map; apply: map_ext => xP //.
+Qed.
+End Correct.
+
+(* ---------------- the two constructors of UKFCorrection on linear models ---------------- *)
+Section CorrectTop.
+Variables (n m : nat) (alpha beta kappa : F).
+Variables (H : 'M[F]_(m,n)) (y : 'cV[F]_m).
+Variables (pred old : mixture O n n) (st : ukf_state O m).
+Hypothesis pred_plain : plain_layout (mx_layout pred) n.
+Hypothesis pred_psd : forall mc, In mc (mx_comps pred) -> psd mc.2.
+Variable Lmeas : layout.
+Hypothesis Lmeas_plain : plain_layout Lmeas m.
+Let comps := mx_comps pred.
+Let gcomps := List.map (fun xP : 'cV[F]_n * 'M[F]_n => mkGcomp (O:=O) xP.1 xP.2) comps.
+
+Definition kf_result (Reff : 'M[F]_m) : mixture O n n * ukf_state O m * list (kf_out O n m) :=
+  let outs := kf_correct (O:=O) H Reff y gcomps in
+  (mkMix (O:=O) (mx_layout old)
+         (overwrite_prefix (List.map (fun o => (gmean (ko_comp o), gcov (ko_comp o))) outs) (mx_comps old))
+         (mx_weights old),
+   mkUkfState (O:=O) (List.map (fun o => ko_innov o) outs) (List.map (fun o => ko_Py o) outs),
+   outs).
+
+Lemma dim_plain : l_dim Lmeas = m.
+Proof. by case: Lmeas_plain => H1 H2 H3; rewrite /l_dim H1 H2 H3; lia. Qed.
+
+Lemma ukf_correct_additive_linear (Ldesc : layout) (R : 'M[F]_m) :
+  l_lin Ldesc = n -> l_circ Ldesc = 0%N ->
+  0 < w_c (ut_weights (O:=O) n alpha beta kappa) ->
+  ukf_correct_additive (O:=O) Ldesc Lmeas alpha beta kappa false (Some y)
+                       (fun X => Some (linear_cols (O:=O) H X)) (lin_innovation_cols (O:=O))
+                       R pred old st = kf_result R.
+Proof.
+move=> Hl Hc cp; rewrite /ukf_correct_additive /ut_weights_of dim_plain.
+have -> : l_dcov (l_noiseless Ldesc) = n by rewrite /l_dcov /l_dx /= Hl Hc; lia.
+rewrite /ut_additive_meas /ut_generic linear_cols_affine.
+have Hn : l_lin (mx_layout pred) = n by case: pred_plain.
+have Hm : l_lin (l_noiseless Lmeas) = m by case: Lmeas_plain.
+rewrite (ut_core_affine (plain_linear pred_plain) Hn Hm cp sqrt_contract sq_contract _ _ pred_psd).
+rewrite add_noise_affine.
+rewrite (map_ext _ (meas_image H R)); last first.
+  by move=> xP; rewrite /affine_image /meas_image sel_id mul1mx addr0.
+exact: ukf_correct_finish_kf.
+Qed.
+
+Lemma ukf_correct_generic_linear q (Ldesc : layout) (D : 'M[F]_(m,q)) (Rv : 'M[F]_q) :
+  l_dcov Ldesc = (n + q)%N -> psd Rv ->
+  0 < w_c (ut_weights (O:=O) (n + q) alpha beta kappa) ->
+  ukf_correct_generic (O:=O) Ldesc Lmeas alpha beta kappa false (Some y)
+                      (fun X => Some (linear_cols (O:=O) (row_mx H D) X)) (lin_innovation_cols (O:=O))
+                      Rv pred old st = kf_result (D *m Rv *m D^T).
+Proof.
+move=> Hd pR cp; rewrite /ukf_correct_generic /ut_weights_of dim_plain Hd.
+rewrite /ut_meas /ut_generic linear_cols_affine.
+have Hl := add_noise_linear q pred_plain.
+have Hx : l_lin (l_add_noise (mx_layout pred) q) = n by case: pred_plain.
+have Hm : l_lin (l_noiseless Lmeas) = m by case: Lmeas_plain.
+have := @ut_generic_affine_augmented F tr sq eg _ (l_noiseless Lmeas) n q m Hl Hx Hm
+          alpha beta kappa cp sqrt_contract sq_contract H D 0 Rv pR (mx_comps pred) pred_psd.
+rewrite /ut_generic => /Some_inj ->.
+rewrite (map_ext _ (meas_image H (D *m Rv *m D^T))); last first.
+  by move=> xP; rewrite /augmented_image /meas_image !addr0.
+exact: ukf_correct_finish_kf.
+Qed.
+
+(* the likelihood reported afterwards is the Kalman one *)
+Lemma ukf_likelihood_kf (Reff : 'M[F]_m) : comps <> [::] ->
+  ukf_likelihood (O:=O) (kf_result Reff).1.2 =
+  Some (List.map (kf_likelihood (O:=O)) (kf_correct (O:=O) H Reff y gcomps)).
+Proof.
+rewrite /kf_result /ukf_likelihood /= /kf_correct /gcomps => Hne.
+set outs := List.map (kf_correct_one (O:=O) H Reff y) _.
+have : outs <> [::] by rewrite /outs; case: (comps) Hne.
+by case: outs => [|o os] // _; rewrite combine_map2 map_map.
+Qed.
+
+Lemma ukf_likelihood_additive_linear (Ldesc : layout) (R : 'M[F]_m) :
+  l_lin Ldesc = n -> l_circ Ldesc = 0%N ->
+  0 < w_c (ut_weights (O:=O) n alpha beta kappa) -> comps <> [::] ->
+  ukf_likelihood (O:=O)
+    (ukf_correct_additive (O:=O) Ldesc Lmeas alpha beta kappa false (Some y)
+       (fun X => Some (linear_cols (O:=O) H X)) (lin_innovation_cols (O:=O)) R pred old st).1.2 =
+  Some (List.map (kf_likelihood (O:=O)) (kf_correct (O:=O) H R y gcomps)).
+Proof. by move=> *; rewrite ukf_correct_additive_linear //; exact: ukf_likelihood_kf. Qed.
+
+Lemma ukf_likelihood_generic_linear q (Ldesc : layout) (D : 'M[F]_(m,q)) (Rv : 'M[F]_q) :
+  l_dcov Ldesc = (n + q)%N -> psd Rv ->
+  0 < w_c (ut_weights (O:=O) (n + q) alpha beta kappa) -> comps <> [::] ->
+  ukf_likelihood (O:=O)
+    (ukf_correct_generic (O:=O) Ldesc Lmeas alpha beta kappa false (Some y)
+       (fun X => Some (linear_cols (O:=O) (row_mx H D) X)) (lin_innovation_cols (O:=O)) Rv pred old st).1.2 =
+  Some (List.map (kf_likelihood (O:=O)) (kf_correct (O:=O) H (D *m Rv *m D^T) y gcomps)).
+Proof. by move=> *; rewrite ukf_correct_generic_linear //; exact: ukf_likelihood_kf. Qed.
+
+(* the innovation covariance the step inverts is invertible when R is SPD *)
+Lemma ukf_Pyy_unit (Reff : 'M[F]_m) (P : 'M[F]_n) : psd P -> spd Reff ->
+  H *m P *m H^T + Reff \in unitmx.
+Proof. by move=> pP sR; apply: spd_unit; apply: psd_spd_add => //; apply: psd_congr. Qed.
+End CorrectTop.
+
+End UKFMx.
